@@ -1,4 +1,6 @@
 import Tea.Proofs.InlineQ
+import Tea.Proofs.InlineHistory
+import Tea.Proofs.InlineClear
 /-
 C14 — Printed lines appear once, in order, above the view.
 
@@ -8,6 +10,14 @@ writes them starting at the row where the view began, wrapped at the terminal
 width, then draws the whole view below them; nothing above that row is touched,
 and later flushes neither repeat nor disturb them.  On the alt screen printed
 lines are dropped."
+
+Whole histories (`C14_history`, `C14_history_stable`, `C14_pending`): "Every line printed with
+Println or Printf while the alt screen is not active appears exactly once, in print order,
+directly above the live view, is never overwritten, erased or reordered by later renders, and
+scrolls into the terminal's history like ordinary output - and whatever was on the terminal above
+the program before it started stays intact."  (A ClearScreen erases the window, printed lines
+that are still in it included; the lines still queued are then printed from the top row of the
+window on: `C14_flush_after_clear`.)
 
 Vocabulary (see also `Tea/Props/C06.lean`):
 * `rowsOf w len`   — rows a printed line of `len` cells takes: `(len - 1) / w + 1` (1 for `len = 0`);
@@ -20,6 +30,15 @@ Vocabulary (see also `Tea/Props/C06.lean`):
   own visible part (`C14_qrows`): `padLine w p` IS what the row shows of such a piece `p`.
   A queued line is written with all its bytes (`.text l`, escape sequences included), not cut;
 * `viewTop r t`, `InlineInv r t` — as in C06.
+* histories (`Tea/Proofs/InlineHistory.lean`): `J r` — the queue invariant `r.queued ≠ [] →
+  r.lastRender = []` of a run; `inlineStable` — every step but a resize, EnterAltScreen, ClearScreen,
+  `stop`, `kill`; `flushPrints r` — a flush in state `r` prints the queue (a pending view, a non-empty
+  queue, inline);
+  `printedLines r ops` / `printedRows w r ops` — the LOG of a history: the queue (its rows
+  `qrows w queue`) at the moment of every printing flush, concatenated in history order;
+  `pendingLines r ops` — the lines of the `printLine` steps after the last printing flush (after
+  what was queued at the start, if no flush prints); `printLinesOf ops` — every line of every
+  `printLine` step, in order.
 
 Only property theorems live here; helper lemmas are in `Tea/Proofs`.
 -/
@@ -151,6 +170,128 @@ theorem C14_print_then_flush (r : RState) (t : Term) (hinv : InlineInv r t) (hq 
   rw [p4] at c7 c8
   exact ⟨c1, c2, c6, c7, c8, c12⟩
 
+/-- **Every printed line of a whole inline history.**  From `InlineInv r t ∧ J r`, along any
+`inlineStable` history `ops` (views, flushes — painting, skipping, printing, no-ops —, repaints,
+modes, printed lines, in any order), the terminal receiving exactly what the steps write; with
+`R0 = viewTop r t` the row where the view started, `(r', t')` renderer and terminal after the
+history, `P = printedRows t.w r ops` the log of the rows printed:
+* (a) whatever was above the program stays intact: every row above `R0` is untouched — rows of
+  the unbounded tape, so this includes everything that scrolled out of the window;
+* (b) the printed lines appear once, in print order: tape row `R0 + j` shows `P[j]` (cut at the
+  width — the pieces are at most that long — and blank padded), for every `j`: nothing printed was
+  overwritten, erased or reordered by the later flushes of the history, also when it has scrolled
+  out of the window (the window only moves down: `t.main.top ≤ t'.main.top`);
+* (c) the live view is directly below them: it starts at row `R0 + P.length`;
+* (d) nothing is lost or duplicated: the queue at the end is `pendingLines r ops`, and what was
+  queued at the start followed by every line of every `printLine` step, in order, is the lines
+  written by the printing flushes (`printedLines`, whose rows are `P`) followed by the pending
+  ones: every printed line is in exactly one of the two, once, in print order;
+* the invariants hold again and the size is unchanged. -/
+theorem C14_history (r : RState) (t : Term) (hinv : InlineInv r t) (hJ : J r) (ops : List ROp)
+    (hs : ∀ o ∈ ops, inlineStable o = true)
+    (r' : RState) (t' : Term) (hr' : r' = (run r ops).1)
+    (ht' : t' = (run r ops).2.foldl applyOps t) :
+    InlineInv r' t' ∧ J r' ∧ t'.w = t.w ∧ t'.h = t.h ∧
+    (∀ ρ, ρ < viewTop r t → ∀ c, t'.main.cells ρ c = t.main.cells ρ c) ∧
+    (∀ j l, (printedRows t.w r ops)[j]? = some l →
+      t'.main.row t.w (viewTop r t + j) = padLine t.w l) ∧
+    viewTop r' t' = viewTop r t + (printedRows t.w r ops).length ∧
+    t.main.top ≤ t'.main.top ∧
+    r'.queued = pendingLines r ops ∧
+    r.queued ++ printLinesOf ops = printedLines r ops ++ pendingLines r ops ∧
+    printedRows t.w r ops = qrows t.w (printedLines r ops) := by
+  obtain ⟨a1, a2, tr⟩ := inline_run_trace ops r t hinv hJ hs
+  obtain ⟨q1, _, q3⟩ := queue_run ops r hJ hinv.alt hs
+  subst hr' ht'
+  refine ⟨a1, a2, tr.w, tr.h, tr.above, ?_, tr.vt, tr.top, q1, q3, printedRows_eq _ _ _⟩
+  intro j l hj
+  exact (rowShows_iff_row _ _ _ _).1 (tr.rows j l hj)
+
+/-- **Later renders never disturb what was printed.**  A history `ops1` followed by any further
+history `ops2`: the log of the whole is the log of `ops1` followed by the log of `ops2` (run from
+the state `ops1` leaves), so the rows printed during `ops1` are still where they were, showing
+what they showed, after `ops2` — whatever it renders or prints. -/
+theorem C14_history_stable (r : RState) (t : Term) (hinv : InlineInv r t) (hJ : J r)
+    (ops1 ops2 : List ROp) (hs1 : ∀ o ∈ ops1, inlineStable o = true)
+    (hs2 : ∀ o ∈ ops2, inlineStable o = true)
+    (t' : Term) (ht' : t' = (run r (ops1 ++ ops2)).2.foldl applyOps t) :
+    printedRows t.w r (ops1 ++ ops2) =
+      printedRows t.w r ops1 ++ printedRows t.w (run r ops1).1 ops2 ∧
+    (∀ j l, (printedRows t.w r ops1)[j]? = some l →
+      t'.main.row t.w (viewTop r t + j) = padLine t.w l) := by
+  have happ := printedRows_append t.w ops1 ops2 r
+  refine ⟨happ, ?_⟩
+  obtain ⟨_, _, _, _, _, b, _⟩ := C14_history r t hinv hJ (ops1 ++ ops2)
+    (fun o ho => by
+      rcases List.mem_append.1 ho with h | h
+      · exact hs1 o h
+      · exact hs2 o h) _ t' rfl ht'
+  intro j l hj
+  apply b j l
+  rw [happ]
+  have hjl : j < (printedRows t.w r ops1).length := by
+    apply Classical.byContradiction
+    intro hn
+    rw [List.getElem?_eq_none (by omega)] at hj
+    cases hj
+  rw [List.getElem?_append_left hjl]
+  exact hj
+
+/-- **What is pending** (`pendingLines` made explicit).  For an inline renderer with `J`: if no
+flush of an `inlineStable` history prints, everything is still pending — what was queued at the
+start, then every line of every `printLine` step, in order; and if the history is `a`, then a flush
+that prints, then a stretch `b` in which no flush prints, the pending lines are exactly the lines
+of the `printLine` steps of `b`, in order: the lines printed after the last printing flush. -/
+theorem C14_pending (r : RState) (hJ : J r) (halt : r.altActive = false) :
+    (∀ ops, (∀ o ∈ ops, inlineStable o = true) → printedLines r ops = [] →
+      pendingLines r ops = r.queued ++ printLinesOf ops) ∧
+    (∀ a b, (∀ o ∈ a ++ .flush :: b, inlineStable o = true) → flushPrints (run r a).1 = true →
+      printedLines (flush (run r a).1).1 b = [] →
+      pendingLines r (a ++ .flush :: b) = printLinesOf b) :=
+  ⟨fun ops hs hp => pendingLines_noprint ops r hJ halt hs hp,
+   fun a b hs hfp hb => pendingLines_last_flush a b r hJ halt hs hfp hb⟩
+
+/-- **The flush that prints, after a ClearScreen.**  `ClearedInv r t` (the state between a
+ClearScreen while inline and the next painting flush: blank window, cursor at its top left, caches
+invalid — `Tea/Proofs/InlineClear.lean`), any queue: after `write s; flush` the queued lines are in
+the rows starting at the TOP ROW of the window, once and in queue order, wrapped at the width; the
+view is directly below them; rows above the window are untouched; the queue is empty, the inline
+invariant holds again, the window scrolled by exactly what was needed. -/
+theorem C14_flush_after_clear (r : RState) (t : Term) (hinv : ClearedInv r t) (s : Bytes)
+    (r' : RState) (t' : Term) (hr' : r' = (flush (write r s)).1)
+    (ht' : t' = applyOps t (flush (write r s)).2) :
+    InlineInv r' t' ∧ r'.queued = [] ∧ t'.alt = t.alt ∧ t'.w = t.w ∧ t'.h = t.h ∧
+    (∀ ρ, ρ < t.main.top → ∀ c, t'.main.cells ρ c = t.main.cells ρ c) ∧
+    (∀ j l, (qrows t.w r.queued)[j]? = some l → t'.main.row t.w (t.main.top + j) = padLine t.w l) ∧
+    viewTop r' t' = t.main.top + (qrows t.w r.queued).length ∧
+    t'.main.cr + 1 = viewTop r' t' + (frameLines (write r s)).length ∧
+    t'.main.cc = 0 ∧ t'.main.pw = false ∧
+    (∀ i l, (frameLines (write r s))[i]? = some l →
+      t'.main.row t.w (viewTop r' t' + i) = padLine t.w (Ansi.visible l)) ∧
+    (∀ ρ, t'.main.cr < ρ → ρ < t'.main.top + t.h → t'.main.row t.w ρ = List.replicate t.w 32) ∧
+    t'.main.top = max t.main.top
+      (t.main.top + (qrows t.w r.queued).length + (frameLines (write r s)).length - t.h) := by
+  obtain ⟨a1, a2, a3, a4, a5, a6, a7, a8, aq, a9, a10⟩ :=
+    cleared_flush_inv (write r s) t (hinv.congr rfl rfl rfl rfl rfl rfl rfl rfl rfl)
+      (write_buf_ne r s)
+  subst hr' ht'
+  obtain ⟨_, b2, b3⟩ := a1.screen a9
+  rw [a6] at b2
+  rw [a6, a7] at b3
+  have hq : (write r s).queued = r.queued := rfl
+  rw [hq] at a3 a4 aq
+  refine ⟨a1, a2, a5, a6, a7, a8, ?_, a3, ?_, a1.col.1, a1.col.2, b2, b3, a4⟩
+  · intro j l hj
+    exact (rowShows_iff_row _ _ _ _).1 (aq j l hj)
+  · have h1 := a1.inside.1
+    rw [a10] at h1
+    have hn1 : 1 ≤ (frameLines (write r s)).length := by
+      rw [frameLines_eq]; exact frameOf_length_pos _ _
+    have : viewTop (flush (write r s)).1 (applyOps t (flush (write r s)).2) =
+        (applyOps t (flush (write r s)).2).main.cr + 1 - max (frameLines (write r s)).length 1 := by
+      unfold viewTop; rw [a10]
+    omega
+
 /-! ### concrete run (non-vacuity): W = 10, H = 5, cursor on window row 1, old output on row 0 -/
 
 def ri : RState := { width := 10, height := 5 }
@@ -204,5 +345,85 @@ example :
       [118,50])).2 =
       [.text [27,91,49,109,104,101,108,108,111,32,119,111,114,108,100,33,33,27,91,48,109], .el0,
        .cr, .lf, .cr, .text [118,50], .el0, .cub 10] := by decide
+
+/-! ### a whole history (non-vacuity of `C14_history`): W = 10, H = 4 so that printing scrolls;
+cursor on window row 1, old output ("xxxxxxxxxx") on row 0 -/
+
+def rh : RState := { width := 10, height := 4 }
+def th : Term := { w := 10, h := 4, main := { cells := fun r _ => if r = 0 then 120 else 32, cr := 1 } }
+
+/-- view "a\nb"; print "one"; flush; print "two\nabcdefghijklm" (the second line has 13 cells: two
+rows); view "a\nB\nc"; flush; flush again (a no-op); print "x" (no flush) -/
+def histOps : List ROp :=
+  [.write [97,10,98], .printLine [111,110,101], .flush,
+   .printLine [116,119,111,10,97,98,99,100,101,102,103,104,105,106,107,108,109],
+   .write [97,10,66,10,99], .flush, .flush, .printLine [120]]
+
+/-- the hypotheses of `C14_history` hold for this run -/
+example : InlineInv rh th ∧ J rh ∧ ∀ o ∈ histOps, inlineStable o = true :=
+  ⟨⟨rfl, rfl, rfl, rfl, by decide, by decide, ⟨rfl, rfl⟩, by decide,
+    fun ρ h _ c _ => by
+      have : ρ ≠ 0 := by have : th.main.cr = 1 := rfl; omega
+      simp [th, this],
+    fun _ h => by simp [rh] at h, fun h => by simp [rh] at h⟩,
+   fun h => absurd rfl h, by decide⟩
+
+/-- the logs: two printing flushes, the first prints "one", the second "two" and the 13-cell line
+(rows: the line from cell 0 on and from cell 10 on); "x" is pending; nothing else -/
+example :
+    viewTop rh th = 1 ∧
+    printedLines rh histOps =
+      [[111,110,101], [116,119,111], [97,98,99,100,101,102,103,104,105,106,107,108,109]] ∧
+    printedRows 10 rh histOps =
+      [[111,110,101], [116,119,111], [97,98,99,100,101,102,103,104,105,106,107,108,109],
+       [107,108,109]] ∧
+    pendingLines rh histOps = [[120]] ∧
+    printLinesOf histOps =
+      [[111,110,101], [116,119,111], [97,98,99,100,101,102,103,104,105,106,107,108,109], [120]] := by
+  decide
+
+set_option maxRecDepth 100000 in
+/-- the terminal after the history: the tape rows from `R0 = 1` on are "one", "two", the two rows
+of the 13-cell line, then the view "a", "B", "c" (rows 5..7, the cursor on row 7, column 0); the
+4-row window scrolled down to row 4, so the printed lines have all gone into the history, where
+they are intact; row 0 above `R0` is as before; `queued = ["x"]` -/
+example :
+    let p := runOn rh th histOps
+    mainRows p.2 0 8 =
+      [List.replicate 10 120,
+       [111,110,101,32,32,32,32,32,32,32], [116,119,111,32,32,32,32,32,32,32],
+       [97,98,99,100,101,102,103,104,105,106], [107,108,109,32,32,32,32,32,32,32],
+       [97,32,32,32,32,32,32,32,32,32], [66,32,32,32,32,32,32,32,32,32],
+       [99,32,32,32,32,32,32,32,32,32]] ∧
+    p.1.queued = [[120]] ∧ p.2.main.top = 4 ∧ p.2.main.cr = 7 ∧ p.2.main.cc = 0 ∧
+    p.2.main.pw = false ∧ viewTop p.1 p.2 = 5 ∧
+    p.1 = (run rh histOps).1 ∧ p.2.main.cr = ((run rh histOps).2.foldl applyOps th).main.cr := by
+  decide
+
+/-- a flush with NO pending view does nothing, also when lines are queued: they stay queued
+until the next view is flushed -/
+example :
+    let r1 := (step (flush (write rh [97])).1 (.printLine [111,110,101])).1
+    flush r1 = (r1, []) ∧ r1.queued = [[111,110,101]] ∧ flushPrints r1 = false ∧
+    flushPrints (write r1 [97]) = true := by decide
+
+set_option maxRecDepth 100000 in
+/-- ... then ClearScreen and the view "v": the window (tape rows 4..7) is blanked — including row
+4, the last row of the 13-cell printed line, which was still in the window —, the pending "x" is
+printed on the top row of the window and the view directly below it; rows 0..3, which had scrolled
+into the history, are intact; the renderer still counted 3 lines, so the flush starts with CUU 2,
+which the terminal clamps at the top row (and, the new view being shorter, it erases below: ED0) -/
+example :
+    let p := runOn rh th (histOps ++ [.clearScreen, .write [118], .flush])
+    mainRows p.2 0 8 =
+      [List.replicate 10 120,
+       [111,110,101,32,32,32,32,32,32,32], [116,119,111,32,32,32,32,32,32,32],
+       [97,98,99,100,101,102,103,104,105,106], [120,32,32,32,32,32,32,32,32,32],
+       [118,32,32,32,32,32,32,32,32,32], List.replicate 10 32, List.replicate 10 32] ∧
+    p.1.queued = [] ∧ p.2.main.top = 4 ∧ p.2.main.cr = 5 ∧ p.2.main.cc = 0 ∧
+    (flush (write (runOn rh th (histOps ++ [.clearScreen])).1 [118])).2 =
+      [.cuu 2, .text [120], .el0, .cr, .lf, .cr, .ed0, .text [118], .el0, .cub 10] ∧
+    (∀ o ∈ histOps ++ [.clearScreen, .write [118], .flush], inlineStableC o = true) := by
+  decide
 
 end Tea.Props.C14
